@@ -89,6 +89,18 @@ theorem guard_implies_features (E : Env) (g : Guard) (h : guardFn g E = pure tru
 the fallback routines and the wrappers need nothing beyond the compilation baseline -/
 theorem generic_code_has_no_intrinsics : nonImplIntrinsics = [] := by decide
 
+/-- **C10 (exports).** The `#[target_feature(enable = …)]` set an exported routine is compiled with — under which LLVM may
+emit any instruction of those extensions anywhere in the inlined kernel, not only where an intrinsic is written — lies
+inside what the dispatcher verifies for the backend the routine belongs to (plus the x86-64 baseline). An `avx2` routine
+compiled with `avx2,fma` would let an FMA instruction reach a CPU on which only AVX2 was checked. -/
+theorem exports_compiled_within_guard : ∀ r ∈ exports, subsetB r.features (allowedFor r.reg) = true := by
+  have h : exports_chunks.all (fun c => c.all (fun r => subsetB r.features (allowedFor r.reg))) = true := by decide +kernel
+  intro r hr
+  exact all_flatten_of_all_chunks _ exports_chunks h r hr
+
+/-- non-vacuity: exports that are compiled with target features exist (all non-fallback ones) -/
+example : ∃ r ∈ exports, r.reg = .Avx2Fma ∧ r.features = [.avx2, .fma] := by decide +kernel
+
 /-- the kernels only reach the backend through trait methods (so the per-method theorem covers them) -/
 theorem kernels_use_trait_methods_only : kernelMethods.length = 20 := by decide
 
